@@ -37,11 +37,11 @@ def main(tier, replay=None):
     refs = {}
     if replay:
         tr = json.load(open(replay))["trace"]
-        cfg, fmts, lg = tr["cfg"].split("/")
+        cfg, fmts, lg = tr["cfg"].split("/")[:3]
         i, o = fmts.split("->")
         ref = E.clobber_reference(root, cfg, i, o, 1 if lg == "log" else 0)
         traces = [E.clobber_case({"tid": 1, "ref": ref, "root": root, "cfg": cfg, "in_fmt": i, "out_fmt": o, "log": 1 if lg == "log" else 0,
-                                  "pre": tr["pre"], "clobber": tr["clobber"]})]
+                                  "pre": tr["pre"], "clobber": tr["clobber"], "empty": 1 if tr["cfg"].endswith("empty-files") else 0})]
         jr = C.judge("ClobberTrace", traces, run.dir, consts="N = 1 MaxPre = 1", spec="TraceSpec")
         C.finish(run, "C16", C.report(run, "C16", jr["V"], {1: traces[0]}))
     for k, (cfg, i, o, lg) in enumerate(plan["cfgs"]):
@@ -52,6 +52,8 @@ def main(tier, replay=None):
                     "model_transitions": r["generated"], "cases": len(objs)})
         for ob in objs:
             scen.append({"ref": ref, "root": root, "cfg": cfg, "in_fmt": i, "out_fmt": o, "log": lg, "pre": ob["pre"], "clobber": ob["clobber"]})
+            if ob["pre"] and (len(ob["pre"]) == 1 or tier == "thorough"):
+                scen.append({"ref": ref, "root": root, "cfg": cfg, "in_fmt": i, "out_fmt": o, "log": lg, "pre": ob["pre"], "clobber": ob["clobber"], "empty": 1})
     for t, s in enumerate(scen, 1):
         s["tid"] = t
     traces = C.pmap("harness.cli_engine", "clobber_case", scen, chunk=20)
@@ -72,7 +74,7 @@ def main(tier, replay=None):
         "rule": "for each CLI configuration (single / multi-assembly / two-haplotype output x input and output format x log on/off) the output set is "
                 "taken from a reference run into an empty directory; TLC (Clobber.tla) enumerates the subsets of pre-existing outputs "
                 + ("(all 2^n)" if plan["maxpre"] >= 99 else f"(size <= {plan['maxpre']} and the full set)") + " x clobber on/off; each is executed "
-                "by the real pretext-to-asm CLI in a fresh directory whose pre-existing files hold 80 kB of junk; non-trivial = non-empty subset",
+                "by the real pretext-to-asm CLI in a fresh directory whose pre-existing files hold 80 kB of junk (single pre-existing files also as zero-length files); non-trivial = non-empty subset",
         "unbounded_proof_of_the_design": proof, "configurations": mcs, "runs_by_mode_and_exit": exits, "model_drift": len(jr["M"]), "model_conformant": len(jr["M"]) == 0,
         "samples": [traces[1], traces[len(traces) // 2]], "known_findings_seen": run.known,
     }
